@@ -245,7 +245,13 @@ def run_g1(ctx: Ctx) -> None:
 # ------------------------------------------------------------------------------- G2
 INJECT = ["dup_type_struct", "dup_type_enum", "dup_field", "dup_binding", "dup_enumerator_name", "dup_enumerator_value",
           "unknown_service", "can_unknown_struct", "dup_can_id", "wide_can_message", "second_struct", "same_id_other_protocol",
-          "dup_binding_via_alias", "same_name_other_protocol", "wide_can_message_name_collision"]
+          "dup_binding_via_alias", "same_name_other_protocol", "wide_can_message_name_collision",
+          # well-formed near misses of the uniqueness rules: keys that only collide after joining, swapping or
+          # case-folding their components, or modulo a machine word (all MUST pass)
+          "binding_keys_join_underscore", "binding_keys_join_plain", "binding_keys_swapped", "binding_names_case",
+          "type_names_case", "field_names_case", "enumerator_names_case", "enumerator_values_congruent",
+          # ill-formed look-alikes (MUST fail)
+          "service_case_mismatch", "service_named_like_struct", "wide_can_message_enum"]
 
 
 @st.composite
@@ -310,6 +316,52 @@ def g2_case(draw):
             # 72 bits, but only 40 when sizes are summed per (colliding) leaf name
             s.decls.append(M.Struct("WideCq", [M.Field("spd", 0, M.Arr(M.U(32), 2)), M.Field("spd_1", 1, M.U(1 + k % 8))]))
             s.decls.append(M.Impl("can", "WideCq", None, [("id", 961)]))
+        elif tw == "binding_keys_join_underscore" and len(structs) >= 1:
+            a, b = structs[k % len(structs)], structs[(k + 1) % len(structs)]
+            # ("fd_Nq", spi) and ("Nq", spi_fd): equal only as "spi_fd_Nq" / "fd_Nq_spi"-style joined strings
+            s.decls.append(M.Impl("spi", a.name, "fd_Nq", [("id", 970)]))
+            s.decls.append(M.Impl("spi_fd", b.name, "Nq", [("id", 971)]))
+            s.decls.append(M.Impl("i2c", a.name, "Nq_fast", [("id", 972)]))
+            s.decls.append(M.Impl("fast_i2c", b.name, "Nq", [("id", 973)]))
+        elif tw == "binding_keys_join_plain" and len(structs) >= 1:
+            a, b = structs[k % len(structs)], structs[(k + 1) % len(structs)]
+            s.decls.append(M.Impl("spi", a.name, "xNq", [("id", 974)]))
+            s.decls.append(M.Impl("spix", b.name, "Nq", [("id", 975)]))
+        elif tw == "binding_keys_swapped" and len(structs) >= 1:
+            a = structs[k % len(structs)]
+            s.decls.append(M.Impl("spi", a.name, "lin2", [("id", 976)]))
+            s.decls.append(M.Impl("lin2", a.name, "spi", [("id", 977)]))
+        elif tw == "binding_names_case" and len(structs) >= 1:
+            a = structs[k % len(structs)]
+            s.decls.append(M.Impl("spi", a.name, "CaseNq", [("id", 978)]))
+            s.decls.append(M.Impl("spi", a.name, "caseNq", [("id", 979)]))
+            s.decls.append(M.Impl("spi", a.name, "CASENQ", [("id", 980)]))
+        elif tw == "type_names_case":
+            s.decls.append(M.Struct("CaseTq", [M.Field("a", 0, M.U(8))]))
+            s.decls.append(M.Enum("caseTq", [("Q", 0)]))
+            s.decls.append(M.Struct("CASETQ", [M.Field("a", 0, M.U(8))]))
+        elif tw == "field_names_case":
+            s.decls.append(M.Struct("CaseFq", [M.Field("val", 0, M.U(8)), M.Field("Val", 1, M.U(8)), M.Field("VAL", 2, M.U(8))]))
+        elif tw == "enumerator_names_case":
+            s.decls.append(M.Enum("CaseEq", [("On", 0), ("ON", 1), ("on", 2)]))
+        elif tw == "enumerator_values_congruent":
+            s.decls.append(M.Enum("CongEq", [("A0", k % 3), ("A1", (k % 3) + 2**32), ("A2", (k % 3) + 2**16), ("A3", (k % 3) + 256)]))
+        elif tw == "service_case_mismatch" and s.services:
+            sv = s.services[k % len(s.services)]
+            other = sv.name.swapcase()
+            if other != sv.name and other not in {x.name for x in s.services}:
+                s.decls.append(M.Device("devcq", [("services", [M.Ident(other)])]))
+        elif tw == "service_named_like_struct":
+            st_ = structs[k % len(structs)]
+            if st_.name not in {x.name for x in s.services}:
+                s.decls.append(M.Device("devsq", [("services", [M.Ident(st_.name)])]))
+        elif tw == "wide_can_message_enum":
+            w = 54 + k % 10
+            top = [1 << (w - 1), (1 << w) - 1, (1 << (w - 1)) + 1][k % 3]
+            items = [("Only", top)] if k % 2 else [("Lo", 0), ("Hi", top)]
+            s.decls.append(M.Enum("WideEnumQ", items))
+            s.decls.append(M.Struct("WideEq", [M.Field("a", 0, M.EnumRef("WideEnumQ")), M.Field("b", 1, M.U(65 - w))]))
+            s.decls.append(M.Impl("can", "WideEq", None, [("id", 962)]))
         elif tw == "second_struct":
             s.decls.append(M.Struct("SecondQ", [M.Field("a", 0, M.U(8))]))
         elif tw == "same_id_other_protocol":
